@@ -9,7 +9,7 @@ Clauses
   finite      no NaN/inf
   forwarded   every call of f received exactly the extra args / kwds of the outer call
   bounds      every evaluation point p satisfies lo <= Re p <= hi componentwise
-  affine-cs   complex method on an affine map: |J - A|_ej <= 4 eps |A_ej|
+  affine-cs   complex method on an affine map: |J - A|_ej <= 16 eps |A_ej|  (measured <= 0.93 eps |A|)
   accuracy    |J - exact|_ej <= T + C_R * R + 64 eps |exact|  with, from the recorded offsets of coordinate j
               (h = smallest, reach = largest offset) and the majorant M of multivar along e_j,
                 T = min_{2 reach <= R <= certified} M(R) reach^p / (R^(p+1) (1 - reach/R))    truncation, rigorous:
@@ -33,7 +33,7 @@ from nverif.oracle import multivar as mv
 EPS = 2.0 ** -52
 CALIBRATE = bool(os.environ.get('NVERIF_CALIBRATE'))
 FLOOR = 64.0
-AFFINE_CS = 4.0
+AFFINE_CS = 16.0
 C_R = 64.0
 METHODS = ['central', 'forward', 'complex']
 GRIDS = [(1, 2), (2, 1), (2, 2), (2, 3), (3, 2), (1, 5), (3, 1)]
@@ -261,7 +261,7 @@ class C19(Prop):
                     ratio = err / unit if unit > 0 else (0.0 if err == 0 else math.inf)
                     ctx.track('affine_cs err/(eps|A|)', ratio, dict(x=x, e=e, j=j, lib=canon[e, j], exact=Jex[e, j]))
                     if ratio > AFFINE_CS and not CALIBRATE:
-                        raise Violation('affine-cs', 'J[%d,%d]=%r, A=%r: |err|=%.3g > 4 eps |A| for an affine map with '
+                        raise Violation('affine-cs', 'J[%d,%d]=%r, A=%r: |err|=%.3g > 16 eps |A| for an affine map with '
                                         'the complex method' % (e, j, canon[e, j], Jex[e, j], err), e=e, j=j)
                     if AFFINE_CS * unit <= abs(Jex[e, j]) / 2:
                         sensitive = True
